@@ -112,3 +112,4 @@ for e in all_entries():
 
 # quick tier: entries added for other properties' sake run in the thorough tier only here
 demote(OBLIGATIONS, ['seq_optc', 'seq_hitags', 'seq_wide', 'seqof_choice_cons', 'choice_cons'])
+demote(OBLIGATIONS, ['set_optc', 'seq_defl', 'seq_any_def'])
